@@ -100,8 +100,17 @@ fn op_str(op: &Op) -> String {
 fn gen_progs(rng: &mut Rng, nthreads: usize, cap: u32) -> Vec<Vec<Op>> {
     let mut next_val = 100u32;
     let big = rng.chance(1, 4);
+    let scripted = big && rng.chance(1, 3);
     (0..nthreads)
-        .map(|_| {
+        .map(|t| {
+            if scripted && t == 0 {
+                // a batch that reserves far more than it delivers (whole buckets stay unallocated), a push that lands behind
+                // the gap, then a snapshot over everything
+                let n = 3 + rng.below(40) as usize;
+                let vals: Vec<u32> = (0..n).map(|_| { next_val += 1; next_val }).collect();
+                next_val += 1;
+                return vec![Op::Extend(n + 100 + rng.below(400) as usize, vals), Op::Push(next_val), Op::Snapshot(0), Op::Count];
+            }
             let nops = 1 + rng.below(5) as usize;
             (0..nops)
                 .map(|_| match rng.below(10) {
@@ -113,7 +122,15 @@ fn gen_progs(rng: &mut Rng, nthreads: usize, cap: u32) -> Vec<Vec<Op>> {
                         // batches that cross bucket boundaries (32, 96, 224) when `big`
                         let n = if big { [30usize, 33, 64, 70, 100][rng.below(5) as usize] } else { rng.below(5) as usize };
                         let reported = match rng.below(8) {
-                            0 => n + 1 + rng.below(3) as usize, // reports too many
+                            // reports too many: by a little, or (big) by enough to reserve whole buckets that are never
+                            // allocated, so that later pushes land behind a gap
+                            0 => {
+                                if big && rng.chance(1, 2) {
+                                    n + 90 + rng.below(300) as usize
+                                } else {
+                                    n + 1 + rng.below(3) as usize
+                                }
+                            }
                             1 => n.saturating_sub(1),           // reports too few (panics)
                             _ => n,
                         };
@@ -125,7 +142,7 @@ fn gen_progs(rng: &mut Rng, nthreads: usize, cap: u32) -> Vec<Vec<Op>> {
                             .collect();
                         Op::Extend(reported, vals)
                     }
-                    6..=7 => Op::Get(rng.below(if big { 260 } else { 12 } + cap as u64 / 8) as u32),
+                    6..=7 => Op::Get(rng.below(if big { 600 } else { 12 } + cap as u64 / 8) as u32),
                     8 => Op::Count,
                     _ => Op::Snapshot(rng.below(3) as u32),
                 })
